@@ -29,6 +29,60 @@ type structLit struct {
 	fn     *ssa.Function
 	alloc  *ssa.Alloc
 	fields map[string]ssa.Value
+	// when the literal is built by a helper from its parameters, the literal is looked at once per call
+	// site of the helper: parameters are replaced by the arguments (subst) and branch facts are taken at
+	// the call (at) in addition to those at the literal itself.
+	at    ssa.Instruction
+	subst map[ssa.Value]ssa.Value
+}
+
+// facts: branch conditions that hold when the literal is built (local ones and those at the call site).
+func (l structLit) facts() []core.Fact {
+	out := core.FactsAtInstr(l.alloc)
+	if l.at != nil && l.at != ssa.Instruction(l.alloc) {
+		out = append(out, core.FactsAtInstr(l.at)...)
+	}
+	return out
+}
+
+// expandLiteral: if fields of the literal are parameters of an unexported helper with call sites in its
+// package, return one copy of the literal per call site with the parameters substituted.
+func expandLiteral(p *core.Prog, lit structLit) []structLit {
+	uses := false
+	for _, v := range lit.fields {
+		if prm, ok := core.Unspill(v).(*ssa.Parameter); ok && prm.Parent() == lit.fn {
+			uses = true
+		}
+	}
+	if !uses || lit.fn.Object() == nil || lit.fn.Object().Exported() {
+		return []structLit{lit}
+	}
+	var out []structLit
+	for _, g := range p.SrcFuncs(core.FuncPkgPath(lit.fn)) {
+		for _, call := range core.CallsIn(g) {
+			if eng.ResolveCallee(call.Common().Value) != lit.fn {
+				continue
+			}
+			nl := structLit{fn: lit.fn, alloc: lit.alloc, fields: map[string]ssa.Value{}, at: call, subst: map[ssa.Value]ssa.Value{}}
+			for i, prm := range lit.fn.Params {
+				if i < len(call.Common().Args) {
+					nl.subst[prm] = core.Unspill(call.Common().Args[i])
+				}
+			}
+			for k, v := range lit.fields {
+				if a, ok := nl.subst[core.Unspill(v)]; ok {
+					nl.fields[k] = a
+				} else {
+					nl.fields[k] = v
+				}
+			}
+			out = append(out, nl)
+		}
+	}
+	if len(out) == 0 {
+		return []structLit{lit}
+	}
+	return out
 }
 
 func structLits(fns []*ssa.Function, typeSuffix string) []structLit {
@@ -115,7 +169,9 @@ func runC03(c *Ctx) {
 			continue
 		}
 		nLicense++
-		checkLicenseLiteral(c, p, lit)
+		for _, l2 := range expandLiteral(p, lit) {
+			checkLicenseLiteral(c, p, l2)
+		}
 	}
 	c.R.RequireMin("R03.1", "non-Copyright Match literals", nLicense, 1)
 	c.R.RequireMin("R03.7", "Copyright Match literals", nCopyright, 1)
@@ -178,7 +234,7 @@ func valName(v ssa.Value) string {
 func checkLicenseLiteral(c *Ctx, p *core.Prog, lit structLit) {
 	key := core.ShortFn(lit.fn) + ": license Match literal"
 	pos := p.Pos(lit.alloc.Pos())
-	facts := core.FactsAtInstr(lit.alloc)
+	facts := lit.facts()
 
 	// R03.1
 	conf := lit.fields["Confidence"]
@@ -206,16 +262,16 @@ func checkLicenseLiteral(c *Ctx, p *core.Prog, lit structLit) {
 	ok = false
 	var want core.Lin
 	if st != nil && en != nil {
-		want = core.LinOf(en, nil).Add(core.LinOf(st, nil), -1).Add(core.Lin{Const: 1}, 1)
+		want = core.LinOf(en, lit.subst).Add(core.LinOf(st, lit.subst), -1).Add(core.Lin{Const: 1}, 1)
 		for _, f := range facts {
 			cmp, isCmp := f.AsCmp()
 			if !isCmp {
 				continue
 			}
-			if k, isK := core.ConstInt(cmp.Y); isK && k == 0 && cmp.Op == token.GTR && core.LinOf(cmp.X, nil).Equal(want) {
+			if k, isK := core.ConstInt(cmp.Y); isK && k == 0 && cmp.Op == token.GTR && core.LinOf(cmp.X, lit.subst).Equal(want) {
 				ok = true
 			}
-			if k, isK := core.ConstInt(cmp.Y); isK && k == 1 && cmp.Op == token.GEQ && core.LinOf(cmp.X, nil).Equal(want) {
+			if k, isK := core.ConstInt(cmp.Y); isK && k == 1 && cmp.Op == token.GEQ && core.LinOf(cmp.X, lit.subst).Equal(want) {
 				ok = true
 			}
 		}
@@ -227,7 +283,7 @@ func checkLicenseLiteral(c *Ctx, p *core.Prog, lit structLit) {
 	// R03.3
 	for _, pair := range [][2]string{{"StartLine", "StartTokenIndex"}, {"EndLine", "EndTokenIndex"}} {
 		lineV, idxV := lit.fields[pair[0]], lit.fields[pair[1]]
-		ok, why := lineOfToken(lineV, idxV)
+		ok, why := lineOfToken(lineV, idxV, lit.subst)
 		c.R.Check(ok, "R03.3", key+": "+pair[0]+" is the line of the token at "+pair[1], pos, why, why)
 	}
 
@@ -236,7 +292,7 @@ func checkLicenseLiteral(c *Ctx, p *core.Prog, lit structLit) {
 }
 
 // lineOfToken: lineV == *(&(*(&id.Tokens))[e].Line) with lin(e) == lin(idxV) and id the result of tokenizeStream.
-func lineOfToken(lineV, idxV ssa.Value) (bool, string) {
+func lineOfToken(lineV, idxV ssa.Value, subst map[ssa.Value]ssa.Value) (bool, string) {
 	if lineV == nil || idxV == nil {
 		return false, "field not stored"
 	}
@@ -260,10 +316,52 @@ func lineOfToken(lineV, idxV ssa.Value) (bool, string) {
 	if !isTokenizedHere(base, 0) {
 		return false, "the document is not the one tokenised by this Match call"
 	}
-	if !core.LinOf(ia.Index, nil).Equal(core.LinOf(idxV, nil)) {
-		return false, fmt.Sprintf("the token index used for the line (%s) differs from the stored token index (%s)", core.LinOf(ia.Index, nil), core.LinOf(idxV, nil))
+	if !core.LinOf(ia.Index, subst).Equal(core.LinOf(idxV, subst)) {
+		return false, fmt.Sprintf("the token index used for the line (%s) differs from the stored token index (%s)", core.LinOf(ia.Index, subst), core.LinOf(idxV, subst))
 	}
-	return true, "Line of target token [" + core.LinOf(ia.Index, nil).String() + "]"
+	return true, "Line of target token [" + core.LinOf(ia.Index, subst).String() + "]"
+}
+
+// asKeySplit: v is strings.Split(key, pathsep), directly or as the result of a helper whose body
+// returns strings.Split(itsParameter, pathsep). Returns the key value (in the caller's frame).
+func asKeySplit(v ssa.Value, depth int) (ssa.Value, bool) {
+	call, ok := v.(*ssa.Call)
+	if !ok || depth > 2 {
+		return nil, false
+	}
+	if core.StaticCalleeName(&call.Call) == "strings.Split" && isPathSepString(call.Call.Args[1]) {
+		return core.Unspill(call.Call.Args[0]), true
+	}
+	f := call.Call.StaticCallee()
+	if f == nil || !core.InRepo(f) || len(f.Blocks) == 0 {
+		return nil, false
+	}
+	var inner ssa.Value
+	for _, b := range f.Blocks {
+		if ret, isRet := b.Instrs[len(b.Instrs)-1].(*ssa.Return); isRet {
+			if len(ret.Results) != 1 {
+				return nil, false
+			}
+			k, ok := asKeySplit(ret.Results[0], depth+1)
+			if !ok {
+				return nil, false
+			}
+			if inner != nil && inner != k {
+				return nil, false
+			}
+			inner = k
+		}
+	}
+	prm, isPrm := inner.(*ssa.Parameter)
+	if !isPrm {
+		return nil, false
+	}
+	for i, q := range f.Params {
+		if q == prm && i < len(call.Call.Args) {
+			return core.Unspill(call.Call.Args[i]), true
+		}
+	}
+	return nil, false
 }
 
 // keyComponent: v is component k of a docs key: decoder(key) with a decoder returning component k, or
@@ -286,11 +384,11 @@ func keyComponent(v ssa.Value) (key ssa.Value, idx int64, ok bool) {
 			return nil, 0, false
 		}
 		k, isK := core.ConstInt(ia.Index)
-		call, isCall := ia.X.(*ssa.Call)
-		if !isK || !isCall || core.StaticCalleeName(&call.Call) != "strings.Split" || !isPathSepString(call.Call.Args[1]) {
+		keyV, isSplit := asKeySplit(ia.X, 0)
+		if !isK || !isSplit {
 			return nil, 0, false
 		}
-		return core.Unspill(call.Call.Args[0]), k, true
+		return keyV, k, true
 	}
 	return nil, 0, false
 }
@@ -381,6 +479,9 @@ func checkTriple(c *Ctx, p *core.Prog, lit structLit, key, pos string) {
 		if idx != want[f] {
 			ok, why = false, fmt.Sprintf("%s is component %d of the key, expected component %d", f, idx, want[f])
 			break
+		}
+		if a, has := lit.subst[k]; has {
+			k = a
 		}
 		if keyVal == nil {
 			keyVal = k
@@ -780,21 +881,12 @@ func decoderShape(fn *ssa.Function, idx int64) (bool, string) {
 			if !ok || k != idx {
 				return false, fmt.Sprintf("returns component %d, expected %d", k, idx)
 			}
-			call, ok := ia.X.(*ssa.Call)
-			if !ok || core.StaticCalleeName(&call.Call) != "strings.Split" {
-				return false, "the indexed value is not strings.Split(key, sep)"
+			keyV, ok := asKeySplit(ia.X, 0)
+			if !ok {
+				return false, "the indexed value is not strings.Split(key, pathsep)"
 			}
-			if call.Call.Args[0] != fn.Params[0] {
+			if keyV != ssa.Value(fn.Params[0]) {
 				return false, "does not split its parameter"
-			}
-			if !isPathSepString(call.Call.Args[1]) {
-				return false, "separator is not the path separator"
-			}
-			if sc, isCall := call.Call.Args[1].(*ssa.Call); isCall {
-				els := varargElems(sc.Call.Args[1])
-				if len(els) != 1 || !isPathSepConst(unwrapIface(els[0])) {
-					return false, "separator is not os.PathSeparator"
-				}
 			}
 			return true, fmt.Sprintf("strings.Split(key, pathsep)[%d]", idx)
 		}
